@@ -1,4 +1,5 @@
 import PermutaModel.Model.C02
+import PermutaModel.Generated.Tables
 /-! C07 small-step model of threads querying one shared `Av` object (permset.py:188-191):
 
     def _get_level(self, level_number):
@@ -9,7 +10,16 @@ import PermutaModel.Model.C02
   A thread that wants level `n` (1) acquires the lock, (2) performs the writes of `_ensure_level`
   one shared-memory mutation at a time (append a finished level, replace a level by its compacted
   copy), (3) releases the lock, (4) reads `self.cache[n]`.  A schedule is a list of thread ids;
-  a blocked thread stutters. -/
+  a blocked thread stutters.
+
+  The machine is parameterised by the lock discipline `Disc` found in the source: with `fast` the
+  function may start with the double-checked-locking fast path
+
+        if <test implying level_number < len(self.cache)>:
+            return self.cache[level_number]
+
+  in which case a thread whose level already exists goes straight to (4) without the lock (and without
+  waiting for a holder); a thread whose test failed is committed to the locked path (`waiting`). -/
 open Proto
 
 namespace Model.C07
@@ -50,11 +60,46 @@ def ensureTrace (o : AvObj) (levelNumber : Nat) : Except Err (List AvObj) :=
     .ok ((tr ++ compactTrace (tr.getLastD o.cache) (o.cache.length - 2) levelNumber).map
       fun c => { o with cache := c })
 
+/-- how `_get_level` uses the lock.  `fast = false`: the plain discipline (`with LOCK: ensure` first, read
+    afterwards).  `fast = true`: double-checked locking — the function starts with
+    `if <test>: return self.cache[level_number]` and `guard n len` is the value of `<test>` for
+    `level_number = n` when `len(self.cache) = len`; otherwise the locked path is taken. -/
+structure Disc where
+  fast : Bool
+  guard : Nat → Nat → Bool
+
+/-- the plain discipline (no lock-free path) -/
+def Disc.locked : Disc := ⟨false, fun _ _ => false⟩
+
+/-- discipline with the canonical guard `level_number < len(self.cache)` (for the natural numbers the
+    machine works with, `isinstance(level_number, int) and 0 <= level_number` is true) -/
+def Disc.ofFlag (fast : Bool) : Disc := ⟨fast, fun n len => decide (n < len)⟩
+
+/-- soundness requirement on the lock-free test: it implies that the level exists -/
+def Disc.OK (d : Disc) : Prop := ∀ n len, d.guard n len = true → n < len
+
+theorem Disc.ofFlag_ok (fast : Bool) : (Disc.ofFlag fast).OK := by
+  intro n len h
+  simpa [Disc.ofFlag] using h
+
+/-- **the discipline found in the source** (regenerated on every run): `Generated.lockFastPath` says whether
+    `_get_level` starts with the lock-free fast path; its test is modelled by the canonical guard
+    `level_number < len(self.cache)` — any further conjunct of the real test only makes it fire less often,
+    which the theorems (stated for every guard that implies `n < len`) cover -/
+def sourceDisc : Disc := Disc.ofFlag Generated.lockFastPath
+
+theorem Disc.locked_ok : Disc.locked.OK := by
+  intro n len h
+  simp [Disc.locked] at h
+
 inductive Phase where
   | idle
+  /-- (fast discipline only) the lock-free test was false: committed to the locked path for level `n`,
+      blocked in / about to execute `with LOCK` -/
+  | waiting (n : Nat)
   /-- inside the critical section for level `n`; `plan` = writes still to perform -/
   | holding (n : Nat) (plan : List AvObj)
-  /-- lock released, about to read `self.cache[n]` -/
+  /-- about to read `self.cache[n]` (lock released, or never taken on the lock-free path) -/
   | reading (n : Nat)
   | failed (e : Err)
 deriving Repr
@@ -73,9 +118,21 @@ deriving Repr
 
 def Sys.setThread (s : Sys) (tid : Nat) (t : Thread) : Sys := { s with threads := s.threads.set tid t }
 
-/-- one step of thread `tid` under the lock discipline of the source
-    (`_ensure_level` inside `with Av._CACHE_LOCK`, result read afterwards) -/
-def step (s : Sys) (tid : Nat) : Sys :=
+/-- `with LOCK: self._ensure_level(n)` entered by thread `tid` (record `t`) whose remaining requests
+    after `n` are `rest`: blocked (stutter) while the lock is held, otherwise the lock is taken and the
+    writes of `_ensure_level` are planned -/
+def tryAcquire (s : Sys) (tid : Nat) (t : Thread) (n : Nat) (rest : List Nat) : Sys :=
+  match s.lock with
+  | some _ => s                                   -- blocked in `with`: stutter
+  | none =>
+    match ensureTrace s.obj n with
+    | .error e => s.setThread tid { t with todo := n :: rest, phase := .failed e }
+    | .ok plan => { s with lock := some tid }.setThread tid { t with todo := rest, phase := .holding n plan }
+
+/-- one step of thread `tid` under the lock discipline `d` of the source
+    (`_ensure_level` inside `with Av._CACHE_LOCK`, result read afterwards; with `d.fast` an existing
+    level is read without the lock, even while another thread holds it) -/
+def step (d : Disc) (s : Sys) (tid : Nat) : Sys :=
   match s.threads[tid]? with
   | none => s
   | some t =>
@@ -85,40 +142,45 @@ def step (s : Sys) (tid : Nat) : Sys :=
       match t.todo with
       | [] => s
       | n :: rest =>
-        match s.lock with
-        | some _ => s                                   -- blocked in `with`: stutter
-        | none =>
-          match ensureTrace s.obj n with
-          | .error e => s.setThread tid { t with phase := .failed e }
-          | .ok plan => { s with lock := some tid }.setThread tid { t with todo := rest, phase := .holding n plan }
+        match d.fast with
+        | false => tryAcquire s tid t n rest
+        | true =>
+          match d.guard n s.obj.cache.length with
+          | true => s.setThread tid { t with todo := rest, phase := .reading n }     -- lock-free path
+          | false => s.setThread tid { t with todo := rest, phase := .waiting n }    -- locked path
+    | .waiting n => tryAcquire s tid t n t.todo
     | .holding n (w :: ws) => { s with obj := w }.setThread tid { t with phase := .holding n ws }
     | .holding n [] => { s with lock := none }.setThread tid { t with phase := .reading n }
     | .reading n =>
       s.setThread tid { t with phase := .idle, got := t.got ++ [(n, (s.obj.cache.getD n []).keys)] }
 
-def run (s : Sys) (sched : List Nat) : Sys := sched.foldl step s
+def run (d : Disc) (s : Sys) (sched : List Nat) : Sys := sched.foldl (step d) s
 
-/-- the same machine *without* mutual exclusion (used only to show that the model can exhibit
-    the failure the lock prevents) -/
-def stepNoLock (s : Sys) (tid : Nat) : Sys :=
+/-- the same machine *without* mutual exclusion on the build path (used only to show that the model
+    can exhibit the failure the lock prevents); the lock-free read of an existing level is kept -/
+def stepNoLock (d : Disc) (s : Sys) (tid : Nat) : Sys :=
   match s.threads[tid]? with
   | none => s
   | some t =>
     match t.phase with
     | .failed _ => s
+    | .waiting _ => s
     | .idle =>
       match t.todo with
       | [] => s
       | n :: rest =>
-        match ensureTrace s.obj n with
-        | .error e => s.setThread tid { t with phase := .failed e }
-        | .ok plan => s.setThread tid { t with todo := rest, phase := .holding n plan }
+        match d.fast && d.guard n s.obj.cache.length with
+        | true => s.setThread tid { t with todo := rest, phase := .reading n }
+        | false =>
+          match ensureTrace s.obj n with
+          | .error e => s.setThread tid { t with phase := .failed e }
+          | .ok plan => s.setThread tid { t with todo := rest, phase := .holding n plan }
     | .holding n (w :: ws) => { s with obj := w }.setThread tid { t with phase := .holding n ws }
     | .holding n [] => s.setThread tid { t with phase := .reading n }
     | .reading n =>
       s.setThread tid { t with phase := .idle, got := t.got ++ [(n, (s.obj.cache.getD n []).keys)] }
 
-def runNoLock (s : Sys) (sched : List Nat) : Sys := sched.foldl stepNoLock s
+def runNoLock (d : Disc) (s : Sys) (sched : List Nat) : Sys := sched.foldl (stepNoLock d) s
 
 /-- initial system: threads with their lists of levels to fetch, sharing `o` -/
 def initSys (o : AvObj) (todos : List (List Nat)) : Sys :=
